@@ -160,7 +160,7 @@ func (g *a4) arrivalOrder() {
 	c, p := g.c, g.p
 	nrecv := 0
 	chanCG = p.CallGraph()
-	defer func() { c.Floor("G8-arrival-order", nrecv, 2) }()
+	defer func() { c.Floor("G8-arrival-order", nrecv, 1) }()
 	for _, fn := range p.SrcFuncs() {
 		if fn.Blocks == nil || !p.IsModFunc(fn) {
 			continue
